@@ -781,7 +781,17 @@ pub async fn acquire_key(base_url: &Uri) -> Result<Key> {
             response.status(),
         )));
     }
-    hyper_client::read_response_body(response).await
+    // a body that cannot be deserialized is quoted by the generic error text; here the body is key material
+    hyper_client::read_response_body(response)
+        .await
+        .map_err(|e| match e {
+            Error::Hyper(crate::common::error::HyperErrorType::Deserialize(_)) => {
+                Error::Hyper(crate::common::error::HyperErrorType::Deserialize(
+                    "Failed to deserialize the key response (content withheld)".to_string(),
+                ))
+            }
+            other => other,
+        })
 }
 
 pub async fn attest_key(base_url: &Uri, key: &Key) -> Result<()> {
